@@ -111,7 +111,7 @@ Proof.
 Qed.
 
 Lemma sect_pc_container s e i :
-  match e with ERelSect _ | EStartCons _ | EConsStep _ | EConsCancel _ | EFire _ | ECbReturn _ _ => False | _ => True end ->
+  match e with ERelSect _ | EStartCons _ | EConsStep _ | EConsCancel _ | EFire _ | ECbReturn _ _ | EWatch _ => False | _ => True end ->
   cpcv (getc (step repaired s e) i) = cpcv (getc s i).
 Proof. intros He. exact (Q_step_container (Qpc i (cpcv (getc s i))) (invoke_Qpc i _) s e He eq_refl). Qed.
 
